@@ -9,6 +9,7 @@ import (
 	"github.com/lmorg/murex/config"
 	"github.com/lmorg/murex/lang/stdio"
 	"github.com/lmorg/murex/utils"
+	"github.com/lmorg/murex/utils/verifhook"
 )
 
 // Read is the standard Reader interface Read() method.
@@ -36,6 +37,7 @@ func (stdin *Stdin) Read(p []byte) (i int, err error) {
 		break
 	}
 
+	verifhook.Yield("streams.Read.gap")
 	stdin.mutex.Lock()
 
 	if len(p) >= len(stdin.buffer) {
@@ -95,6 +97,7 @@ func (stdin *Stdin) ReadAll() ([]byte, error) {
 			break
 		}
 	}
+	verifhook.Yield("streams.ReadAll.gap")
 
 read:
 	stdin.mutex.Lock()
